@@ -91,3 +91,9 @@ package domain
 
 //@ spec func listedURL(u string, xs []string) bool = exists li int :: 0 <= li && li < len(xs) && xs[li] == u
 //@ spec func noneListed(es []*Endpoint, xs []string) bool = forall ni int :: 0 <= ni && ni < len(es) ==> !listedURL(es[ni].URLString, xs)
+
+//@ ghost var lastModelEndpoints []string
+//@ ghost var lastModelErr error
+//@ interface ModelRegistry.GetEndpointsForModel
+//@   records lastModelEndpoints = res0
+//@   records lastModelErr = res1
